@@ -12,7 +12,9 @@ import (
 	"verif/internal/core"
 )
 
-func init() { Registry["C20"] = withErrRules(checkC20, "", "internal/compare", "cmd/thriftbreak", "internal/git") }
+func init() {
+	Registry["C20"] = withErrRules(checkC20, "", "internal/compare", "cmd/thriftbreak", "internal/git")
+}
 
 // condEdges returns the edges on which the boolean value whose symbolic
 // rendering satisfies match has truth value want.
